@@ -227,6 +227,53 @@ class Program:
         m, c = self.cls(qual)
         return {n.name: FuncRef(m, n, c) for n in c.body if isinstance(n, ast.FunctionDef)}
 
+    def call_signature(self, f) -> list[str] | None:
+        """Positional parameter names of the callee of a call whose function term is ``f`` - when the callee is certain:
+        a plain package function, a package class (its __init__), or a method name defined by exactly one package class.
+        Used to record keyword arguments in positional form (so that f(a, b) and f(x=a, y=b) are the same term)."""
+        cache = self.__dict__.setdefault("_sig_cache", {})
+        if "__methods__" not in cache:
+            meths: dict[str, list] = {}
+            for m in self.modules.values():
+                if "/tests/" in m.rel():
+                    continue
+                for d in m.defs.values():
+                    if isinstance(d, ast.ClassDef) and not any(isinstance(b, ast.Name) and b.id == "Protocol" or isinstance(b, ast.Attribute) and b.attr == "Protocol" for b in d.bases):
+                        for n in d.body:
+                            if isinstance(n, ast.FunctionDef):
+                                meths.setdefault(n.name, []).append(n)
+            cache["__methods__"] = meths
+        node = None
+        drop_self = False
+        if isinstance(f, tuple) and f[0] == "global" and f[1].startswith(PKG + "."):
+            key = f[1]
+            if key in cache:
+                return cache[key]
+            r = self.find_func(f[1])
+            if r is not None:
+                node, drop_self = r.node, r.cls is not None and not any(isinstance(d, ast.Name) and d.id == "staticmethod" for d in r.node.decorator_list)
+            else:
+                try:
+                    _m, c = self.cls(f[1])
+                    for n in c.body:
+                        if isinstance(n, ast.FunctionDef) and n.name == "__init__":
+                            node, drop_self = n, True
+                except Exception:
+                    node = None
+            sig = None
+            if node is not None and not node.args.vararg and not any(isinstance(d, ast.Name) and d.id in ("property",) for d in node.decorator_list):
+                sig = [a.arg for a in node.args.posonlyargs + node.args.args]
+                if drop_self and sig:
+                    sig = sig[1:]
+            cache[key] = sig
+            return sig
+        if isinstance(f, tuple) and f[0] == "attr" and isinstance(f[2], str):
+            ds = cache["__methods__"].get(f[2])
+            if ds and len(ds) == 1 and not ds[0].args.vararg and not ds[0].decorator_list and not f[2].startswith("__"):
+                sig = [a.arg for a in ds[0].args.posonlyargs + ds[0].args.args]
+                return sig[1:] if sig and sig[0] in ("self", "cls") else None
+        return None
+
     def all_functions(self) -> Iterator[FuncRef]:
         for m in self.modules.values():
             for d in m.defs.values():
